@@ -54,9 +54,23 @@ def run(ctx):
                        "biofuel_kcals": rng.choice([0.0, float(rng.randint(1, 10 ** 5)), rng.uniform(0, 1e5)]),
                        "feed_months": rng.choice([0, 1, 2, 3, 12, n, rng.randint(0, n)]),
                        "biofuel_months": rng.choice([0, 1, 2, 6, n, rng.randint(0, n)])})
-    nruns = 10 if ctx.quick else 260
-    must = [pools.option(shutoff=s) for s in (rng.sample(pools.FAMILIES["shutoff"], 3) if ctx.quick else pools.FAMILIES["shutoff"])]
-    runs = pools.sample_runs(rng, nruns, must=must)
+    # ---- the run pool is FIXED and enumerable (so that cells failing on the unchanged tree can be listed as known findings):
+    #      every cell of C16's country grid (164 countries x 128 documented presets and single-option variations) plus a fixed
+    #      block of threshold overrides; quick = seeded sample + sentinels, thorough = the whole pool
+    import csv as _csv
+    import presets as _presets
+    from lib import REPO as _REPO
+    import os as _os
+    codes = [r_["iso3"] for r_ in _csv.DictReader(open(_os.path.join(_REPO, "data", "no_food_trade", "computer_readable_combined.csv")))]
+    cp = _presets.country_presets(extended=True)
+    pool = [{"iso3": c_, "preset": n_, "option": o_} for n_, o_ in cp.items() for c_ in codes]
+    for c_ in ["USA", "BRA", "ARG", "AUS", "CAN", "FRA", "DEU", "CHN", "IND", "RUS", "GBR", "JPN", "NGA", "EGY", "MEX", "IDN", "ZAF", "LUX",
+               "MLT", "DJI"]:
+        for sh_ in pools.FAMILIES["shutoff"]:
+            for t_ in (0, 10, 50, 90):
+                pool.append({"iso3": c_, "preset": f"thr_{sh_}_T{t_}",
+                             "option": pools.option(shutoff=sh_, MINIMUM_PERCENT_FED_BEFORE_NONHUMAN_CONSUMPTION_ALLOWED=t_)})
+    runs = list(pool) if not ctx.quick else rng.sample(pool, 14)
     # recorded witnesses (corpus) run first and are kept out of the random re-draws below
     import os
     pinned = []
@@ -64,21 +78,18 @@ def run(ctx):
     if os.path.isdir(cdir):
         for f in sorted(os.listdir(cdir))[: (2 if ctx.quick else 1000)]:
             c = json.load(open(os.path.join(cdir, f)))
-            pinned.append({"iso3": c["iso3"], "option": c["option"]})
-    for r in runs:
-        if rng.random() < 0.45:
-            r["option"]["MINIMUM_PERCENT_FED_BEFORE_NONHUMAN_CONSUMPTION_ALLOWED"] = rng.choice([0, 10, 50, 90, 100])
-        if rng.random() < 0.3:
-            r["option"]["shutoff"] = rng.choice(pools.FAMILIES["shutoff"])
+            pinned.append({"iso3": c["iso3"], "option": c["option"], "preset": "corpus:" + f})
     # sentinels: large feed-dependent livestock countries where the threshold binds (policy-sensitive cells)
-    sentinels = [{"iso3": c, "option": pools.option(shutoff="continued_after_10_percent_fed", meat_strategy="baseline_breeding",
-                                                     MINIMUM_PERCENT_FED_BEFORE_NONHUMAN_CONSUMPTION_ALLOWED=50)}
+    sentinels = [{"iso3": c, "preset": "sentinel_after10_T50_baseline_breeding",
+                  "option": pools.option(shutoff="continued_after_10_percent_fed", meat_strategy="baseline_breeding",
+                                         MINIMUM_PERCENT_FED_BEFORE_NONHUMAN_CONSUMPTION_ALLOWED=50)}
                  for c in (["USA", "BRA"] if ctx.quick else ["USA", "BRA", "ARG", "AUS", "CAN", "FRA", "DEU", "CHN"])]
-    sentinels.append({"iso3": "ARG", "option": pools.option(shutoff="immediate", grasses="baseline", crop_disruption="zero",
-                                                            fish="baseline", nutrition="baseline")})
+    sentinels.append({"iso3": "ARG", "preset": "sentinel_immediate_baseline_climate",
+                      "option": pools.option(shutoff="immediate", grasses="baseline", crop_disruption="zero",
+                                             fish="baseline", nutrition="baseline")})
     # very small countries (every monthly flow is a fraction of a billion kcal) with feed demand
-    sentinels += [{"iso3": "LUX", "option": pools.option(shutoff="continued")},
-                  {"iso3": "MLT", "option": pools.option(shutoff="long_delayed_shutoff")}]
+    sentinels += [{"iso3": "LUX", "preset": "var_shutoff=continued", "option": pools.option(shutoff="continued")},
+                  {"iso3": "MLT", "preset": "sentinel_long_delayed", "option": pools.option(shutoff="long_delayed_shutoff")}]
     runs = pinned + sentinels + runs
     res = ctx.run_impl("c03_impl", {"demand_cases": dcases, "runs": runs, "procs": 14})
     terms = []
@@ -120,7 +131,8 @@ def run(ctx):
                      f"{fq(r['threshold'])} {overridden}")
         nontriv = len(r["rounds"]) == 3 and (sum(r["feed_demand"]) + sum(r["biofuel_demand"])) > 0
         ctx.count(("run", r["iso3"], json.dumps({k: v for k, v in o.items() if k != "title"}, sort_keys=True)), nontrivial=nontriv)
-        where = {"iso3": r["iso3"], "option": o}
+        where = {"iso3": r["iso3"], "option": o, "preset": r.get("preset")}
+        cell = f"@{r['iso3']}:{r.get('preset')}"
         if len(r["rounds"]) == 3:
             dist["three_rounds"] += 1
         else:
@@ -143,17 +155,17 @@ def run(ctx):
         if pf3 < T - 0.1:
             dist["below_threshold"] += 1
             if worst_share > 0.1:
-                key = KNOWN_BELOW if pf1 < T - 0.1 else "C03:feed-allocated-while-below-threshold"
+                key = KNOWN_BELOW if pf1 < T - 0.1 else "C03:feed-allocated-while-below-threshold" + cell
                 ctx.violation(key, f"{r['iso3']}: final {pf3:.4f} % < threshold {T} yet feed+biofuel reach {worst_share:.2f} % of "
                                    f"monthly need (no-feed round: {pf1:.4f} %)",
                               {"kind": "counterexample", "rerun": where, "pf1": pf1, "pf3": pf3, "threshold": T, "worst_share": worst_share})
             if pf3 < pf1 - 0.01:
-                ctx.violation("C03:final-below-no-feed-round", f"{r['iso3']}: final {pf3} < no-feed round {pf1} while below threshold {T}",
+                ctx.violation("C03:final-below-no-feed-round" + cell, f"{r['iso3']} ({r.get('preset')}): final {pf3} < no-feed round {pf1} while below threshold {T}",
                               {"kind": "counterexample", "rerun": where, "pf1": pf1, "pf3": pf3, "threshold": T})
         if pf1 >= T:
             dist["round1_reaches"] += 1
             if pf3 < T - 0.01:
-                ctx.violation("C03:final-falls-below-threshold", f"{r['iso3']}: no-feed round {pf1} >= threshold {T} but final {pf3}",
+                ctx.violation("C03:final-falls-below-threshold" + cell, f"{r['iso3']} ({r.get('preset')}): no-feed round {pf1} >= threshold {T} but final {pf3}",
                               {"kind": "counterexample", "rerun": where, "pf1": pf1, "pf3": pf3, "threshold": T})
         ctx.sample({"iso3": r["iso3"], "shutoff": o["shutoff"], "threshold": T, "pf_no_feed": pf1, "pf_final": pf3,
                     "max_feed_share_percent": worst_share}, limit=6)
